@@ -42,8 +42,12 @@ What "read" and "overwritten" mean (decided by reading the code, see `compile`):
    expressions, and address expressions of stack parameters); a call to an internal function reads
    what the callee exposes at its entry.
  * every call overwrites all registers that are not callee-saved in the callee's calling convention
-   (`clear_non_callee_saved_register`); control continues at the return block only if the callee can
-   return (extern: `!no_return`; internal: a `Return` is reachable from its entry).
+   (`clear_non_callee_saved_register`) — EXCEPT, for a call to an internal function, a RETURN register
+   of the callee's calling convention that the callee may leave untouched: if some returning path of
+   the callee does not overwrite it (`presRegs`, Kleene iteration over the functions), the register
+   still holds the caller's value behind the call (`compute_return_values_of_call` translates the
+   callee's entry id of the register back to the caller's value). Control continues at the return
+   block only if the callee can return (extern: `!no_return`; internal: a `Return` is reachable).
 Registers are numbered by their position in `regUniverse` (all parameter registers of all calling
 conventions of the project).
 -/
@@ -501,7 +505,11 @@ def compileDef (U : List Variable) (nonSpill : List Tid) (me : Nat) (t : Tid) (d
       | _ => e.inputVars
     { reads := regIdx U (a.inputVars ++ vr), succ := [me + 1], kind := "store" }
 
-def compileJmp (p : Project) (U : List Variable) (bs : List (Term Blk)) (b : Term Blk)
+/-- return registers of a calling convention (`compute_return_values_of_call`) -/
+def ccReturnRegs (cc : CallingConvention) : List Variable :=
+  cc.integerReturnRegister ++ cc.floatReturnRegister.flatMap (·.inputVars)
+
+def compileJmp (p : Project) (U : List Variable) (pres : Nat → List Nat) (bs : List (Term Blk)) (b : Term Blk)
     (me : Nat) (hasNext : Bool) (j : Jmp) : FNode :=
   let tgt (t : Tid) : List Nat := (blockStart bs t).toList
   let ret (r : Option Tid) : List Nat := match r with | some t => tgt t | none => []
@@ -530,7 +538,8 @@ def compileJmp (p : Project) (U : List Variable) (bs : List (Term Blk)) (b : Ter
       match p.program.subs.findIdx? (·.tid == t) with
       | some g =>
         let cc := specificCc p ((p.program.subs[g]?).bind (·.term.callingConvention))
-        { kills := clobbered U cc, succ := match cc with | some _ => ret r | none => [],
+        { kills := (clobbered U cc).filter (fun r => !(pres g).contains r),
+          succ := match cc with | some _ => ret r | none => [],
           call := some g, kind := "call-internal" }
       | none => { kind := "call-unknown" }
 
@@ -545,7 +554,7 @@ def viaCondEdge : Jmp → Bool
 For `[CBranch c t, j]`: the `CBranch` node reads `c` and leads to `t`; `j` is reached from the
 `CBranch` node if the analysis records the read of `c` on the way to `j` (`viaCondEdge`), otherwise
 directly from `BlkEnd` (for the specification both are the same: a `CBranch` overwrites nothing). -/
-def compileBlock (p : Project) (U : List Variable) (nonSpill : List Tid) (bs : List (Term Blk)) (off : Nat) (b : Term Blk) : List FNode :=
+def compileBlock (p : Project) (U : List Variable) (nonSpill : List Tid) (pres : Nat → List Nat) (bs : List (Term Blk)) (off : Nat) (b : Term Blk) : List FNode :=
   let nd := b.term.defs.length
   let nj := b.term.jmps.length
   let defs := (List.range nd).zipWith (fun i d => compileDef U nonSpill (off + i) d.tid d.term) b.term.defs
@@ -556,25 +565,36 @@ def compileBlock (p : Project) (U : List Variable) (nonSpill : List Tid) (bs : L
   let blkEnd : FNode :=
     { succ := (if nj > 0 then [off + nd + 1] else []) ++ (if direct then [off + nd + 2] else []), kind := "blkend" }
   let jmps := (List.range nj).zipWith (fun i j =>
-    compileJmp p U bs b (off + nd + 1 + i) (i == 0 && second.isSome && !direct) j.term) b.term.jmps
+    compileJmp p U pres bs b (off + nd + 1 + i) (i == 0 && second.isSome && !direct) j.term) b.term.jmps
   defs ++ [blkEnd] ++ jmps
 
-def compileSub (p : Project) (U : List Variable) (nonSpill : List Tid) (s : Term Sub) : FFn :=
+def compileSub (p : Project) (U : List Variable) (nonSpill : List Tid) (pres : Nat → List Nat) (s : Term Sub) : FFn :=
   let bs := s.term.blocks
   let rec go : List (Term Blk) → Nat → List FNode
     | [], _ => []
-    | b :: rest, off => compileBlock p U nonSpill bs off b ++ go rest (off + blockSize b)
+    | b :: rest, off => compileBlock p U nonSpill pres bs off b ++ go rest (off + blockSize b)
   { nodes := go bs 0,
     params := match specificCc p s.term.callingConvention with
       | some cc => regIdx U (ccAllParams cc)
       | none => [] }
 
-/-- two passes: the control structure (successors, callees, returns) does not depend on what is read,
-so which calls return is computed first (`solveB` on the structure); with it the spill analysis decides
-which stored plain registers are reads. -/
-def compile (p : Project) : FProg :=
+/-- return registers (of the function's own calling convention, as register numbers) that function `g`
+may leave untouched: some path from its entry to a `Return` overwrites the register nowhere — one round
+relative to the flow program `P` (whose internal-call nodes already spare what their callees preserve) -/
+def presRound (p : Project) (U : List Variable) (P : FProg) (T : Tables) (g : Nat) : List Nat :=
+  let cc := specificCc p ((p.program.subs[g]?).bind (·.term.callingConvention))
+  let rets := match cc with | some cc => regIdx U (ccReturnRegs cc) | none => []
+  rets.filter fun r => (coreach (nextR P T g r) (P.size g) (isRetNode P g)).contains 0
+
+/-- The compilation has three passes, because the control structure (successors, callees, returns) does
+not depend on what is read or overwritten: (1) which calls return (`solveB` on the structure);
+(2) which return registers each function may leave untouched (`presRound`, iterated from "none" until
+stable); (3) the spill analysis, which decides which stored plain registers are reads. -/
+def compileWith (p : Project) (usePres : Bool) : FProg :=
   let U := regUniverse p
-  let P0 : FProg := p.program.subs.map (compileSub p U [])
+  let comp (nonSpill : Term Sub → List Tid) (pres : Nat → List Nat) : FProg :=
+    p.program.subs.map fun s => compileSub p U (nonSpill s) pres s
+  let P0 := comp (fun _ => []) (fun _ => [])
   let T0 := (solveB P0 0 (P0.length + 2) (Tables.empty P0.length)).1
   let returns (t : Tid) : Bool :=
     match p.program.findExtern t with
@@ -582,6 +602,15 @@ def compile (p : Project) : FProg :=
     | none => match p.program.subs.findIdx? (·.tid == t) with
       | some g => T0.canRet g
       | none => false
-  p.program.subs.map fun s => compileSub p U (nonSpillStores p returns s) s
+  let rec iter : Nat → List (List Nat) → List (List Nat)
+    | 0, pr => pr
+    | fuel + 1, pr =>
+      let P := comp (fun _ => []) (fun g => pr.getD g [])
+      let pr' := (List.range P0.length).map (presRound p U P T0)
+      if pr' = pr then pr else iter fuel pr'
+  let pr := if usePres then iter (P0.length * (U.length + 1) + 2) (List.replicate P0.length []) else List.replicate P0.length []
+  comp (nonSpillStores p returns) (fun g => pr.getD g [])
+
+def compile (p : Project) : FProg := compileWith p true
 
 end CweModel.C14
